@@ -29,7 +29,9 @@ Record sub := { s_kind : N;            (* 0 Sync, 1 SyncRaw, 2 SyncPrefix, 3 Syn
 Record sub_obs := { o_states : list content; o_msgs : list content }.
 Record c19_case := { c_ops : list op; c_subs : list sub; c_obs : list sub_obs;
                      c_faults : bool;  (* the history contains fault injections (muted watch, cancel, restart) *)
-                     c_bad : bool }.   (* harness-level failure (panic, write error): never a pass *)
+                     c_bad : bool;     (* harness-level failure (panic, write error): never a pass *)
+                     c_api_bad : bool }. (* cluster.GetRaw/GetRawPrefix (op.go) disagreed with the harness' own
+                                            single range request on some read-back: correspondence only *)
 
 Definition is_prefix_kind (k : N) : bool := (2 <=? k)%N.
 
@@ -51,30 +53,40 @@ Definition model_states (ops : list op) (s : sub) : list content :=
 
 Definition contents_eqb (a b : list content) : bool := list_eqb content_eqb a b.
 
-Definition model_msgs (ops : list op) (s : sub) (msgs : list content) : list content * bool :=
-  match model_states ops s with
+Definition model_msgs_from (s : sub) (ms : list content) (msgs : list content) : list content * bool :=
+  match ms with
   | [] => ([], false)
   | s0 :: ws =>
       let evs := schedule_of true s0 ws msgs in
       (map (msg_of s) (run s0 evs), pulled false evs && contents_eqb (writes evs) ws)
   end.
 
+Definition model_msgs (ops : list op) (s : sub) (msgs : list content) : list content * bool :=
+  model_msgs_from s (model_states ops s) msgs.
+
+(** contents of more than 64 entries (big-prefix cases): the quadratic [is_data_equal] of the
+    executable model would dominate the run time, so the model's possible outputs are decided by
+    the checker instead of by running it (C19_checker_complete: the checker accepts exactly the
+    outputs of [run]; C19_fast_checker_equiv: the linear comparison changes nothing for maps) *)
+Definition is_big (l : list content) : bool := existsb (fun c => Nat.ltb 64 (List.length c)) l.
+
 (** [fin]: convergence is demanded (the store was available: single node, or a quorum of the
     members was up all the time).  Without [fin] only safety is checked. *)
 Definition corr_sub (fin : bool) (ops : list op) (s : sub) (o : sub_obs) : bool :=
-  contents_eqb (model_states ops s) (o_states o) &&
-  (if fin then
-     let '(m, ok) := model_msgs ops s (o_msgs o) in ok && contents_eqb m (o_msgs o)
+  let ms := model_states ops s in
+  contents_eqb ms (o_states o) &&
+  (if fin && negb (is_big ms) then
+     let '(m, ok) := model_msgs_from s ms (o_msgs o) in ok && contents_eqb m (o_msgs o)
    else
-     match model_states ops s with
+     match ms with
      | [] => false
-     | s0 :: ws => check_trace false s0 ws (o_msgs o)
+     | s0 :: ws => check_trace_fast fin s0 ws (o_msgs o)
      end).
 
 Definition prop_sub (fin : bool) (o : sub_obs) : bool :=
   match o_states o with
   | [] => false
-  | s0 :: ws => check_trace fin s0 ws (o_msgs o)
+  | s0 :: ws => check_trace_fast fin s0 ws (o_msgs o)
   end.
 
 Fixpoint zip_all {A B} (f : A -> B -> bool) (l1 : list A) (l2 : list B) : bool :=
@@ -125,7 +137,7 @@ Definition class_case (c : c19_case) : N :=
   end.
 
 Definition check_sync_fin (fin : bool) (c : c19_case) : result :=
-  (negb (c_bad c) && zip_all (corr_sub fin (c_ops c)) (c_subs c) (c_obs c),
+  (negb (c_bad c) && negb (c_api_bad c) && zip_all (corr_sub fin (c_ops c)) (c_subs c) (c_obs c),
    negb (c_bad c) && Nat.eqb (List.length (c_subs c)) (List.length (c_obs c)) && forallb (prop_sub fin) (c_obs c),
    class_case c, 0%N).
 
